@@ -49,8 +49,8 @@ fn mix(state: &mut u64) -> u64 {
 /// leave holes, some empty or inverted.
 fn gen_large_leaf(ch: &mut Choices) -> Leaf {
     let n = [20u32, 31, 32, 33, 34, 40, 64, 65, 100, 140][ch.draw(10) as usize] + ch.draw(3);
-    let grid = ch.pick(&[10u32, 40, 5, 1, 60]);
-    let len_max = ch.pick(&[20u32, 5, 60, 100, 300]);
+    let grid = ch.pick(&[10u32, 40, 5, 1, 60, 15, 20]);
+    let len_max = ch.pick(&[20u32, 5, 60, 100, 300, 8, 12]);
     let mut state = u64::from(ch.raw()) << 16 | u64::from(ch.raw());
     let mut ranges = Vec::new();
     for _ in 0..n {
@@ -191,7 +191,20 @@ fn algebra(ch: &mut Choices, case: &mut Case) -> Result<(), String> {
     for _ in 0..steps {
         // a group of 1..3 leaves, right-nested: acc + (l1 + (l2 + l3))
         let group = 1 + ch.weighted(&[70, 20, 10]);
-        let leaves: Vec<Leaf> = (0..group).map(|_| gen_leaf(ch)).collect();
+        let mut leaves: Vec<Leaf> = (0..group).map(|_| gen_leaf(ch)).collect();
+        // a range strictly inside one of the ranges the accumulated schedule stores (it splits
+        // that range in two), of any kind
+        let stored: Vec<(u32, u32)> = acc.verif_ranges().iter().map(|tr| (u32::from(tr.range.start.mins_from_midnight()), u32::from(tr.range.end.mins_from_midnight()))).filter(|(a, b)| b - a >= 3).collect();
+        if !stored.is_empty() && ch.chance(30) {
+            let (a, b) = stored[ch.draw(stored.len().min(60000) as u32) as usize];
+            let lo = a + 1 + ch.draw((b - a - 2).max(1));
+            let hi = (lo + 1 + ch.draw((b - lo - 1).max(1))).min(b - 1);
+            leaves = vec![Leaf { ranges: vec![(lo, hi.max(lo + 1).min(b - 1))], kind: ch.pick(&[RuleKind::Open, RuleKind::Closed, RuleKind::Unknown]), comment: None }];
+            case.label("range_nested_in_a_stored_range");
+            if acc.verif_ranges().len() > 64 {
+                case.label("nested_into_more_than_64_stored_ranges");
+            }
+        }
         let mut built: Vec<(Schedule, Model, String)> = Vec::new();
         for l in &leaves {
             let (s, m) = build_leaf(l);
@@ -242,7 +255,7 @@ pub fn property() -> Property {
         id: "C14",
         subs: vec![SubCheck {
             name: "algebra",
-            rule: "trees of 1-8 additions over from_ranges leaves (0-6 ranges each on an hour/quarter/minute grid, 4 % of the leaves with 20-142 ranges expanded from a drawn seed: overlapping, nested, adjacent, empty, inverted, identical starts; three kinds; optional comment), left- and right-nested, every intermediate value checked against a per-minute last-writer-wins model: stored ranges (hook H2) disjoint/increasing/non-empty/within the day, painted minutes = model, is_empty, iteration tiles 00:00-24:00 gap-free with closed holes and differing neighbours; non-trivial = some leaf had overlapping input ranges and some iterated value had >= 4 periods",
+            rule: "trees of 1-8 additions over from_ranges leaves (0-6 ranges each on an hour/quarter/minute grid, 4 % of the leaves with 20-142 ranges expanded from a drawn seed — up to ~100 stored pieces —, 30 % of the steps add a range strictly inside a stored range: overlapping, nested, adjacent, empty, inverted, identical starts; three kinds; optional comment), left- and right-nested, every intermediate value checked against a per-minute last-writer-wins model: stored ranges (hook H2) disjoint/increasing/non-empty/within the day, painted minutes = model, is_empty, iteration tiles 00:00-24:00 gap-free with closed holes and differing neighbours; non-trivial = some leaf had overlapping input ranges and some iterated value had >= 4 periods",
             f: algebra,
             text_f: None,
             cases_quick: 200_000,
